@@ -27,8 +27,21 @@ def _base(cx, mido, type_, skip=None):
 
 
 def _unchanged(m, snap):
+    """Same attribute names, every value the same object or an equal one."""
     v = vars(m)
-    return set(v) == set(snap) and all(v[k] is snap[k] for k in snap)
+    if set(v) != set(snap):
+        return False
+    for k in snap:
+        if v[k] is snap[k]:
+            continue
+        a, b = v[k], snap[k]
+        if isinstance(a, tuple) and isinstance(b, tuple) and len(a) == len(b) and all(x is y for x, y in zip(a, b)):
+            continue
+        r = (a == b)
+        if r is True:
+            continue
+        return False if r is False else bool(r)
+    return True
 
 
 def _apply(cx, mido, entry, type_, base, vals, t0, attr, value):
